@@ -182,6 +182,30 @@ func tests() []test {
 		_, ok := <-c
 		*obs = strings.Join(got, "") + fmt.Sprint(ok)
 	}, want: map[int][]string{-1: {"1234false"}}})
+	ts = append(ts, test{name: "channel-semaphore-mutual-exclusion", body: func(obs *string) {
+		// a buffered channel of capacity 1 used as a lock: never two holders, never more than one item
+		sem := make(chan int, 1)
+		var holders, maxHolders, maxLen int32
+		var wg sync.WaitGroup
+		for i := 0; i < 3; i++ {
+			wg.Add(1)
+			go func() {
+				defer wg.Done()
+				sem <- 1
+				h := atomic.AddInt32(&holders, 1)
+				if h > atomic.LoadInt32(&maxHolders) {
+					atomic.StoreInt32(&maxHolders, h)
+				}
+				if l := int32(len(sem)); l > atomic.LoadInt32(&maxLen) {
+					atomic.StoreInt32(&maxLen, l)
+				}
+				atomic.AddInt32(&holders, -1)
+				<-sem
+			}()
+		}
+		wg.Wait()
+		*obs = fmt.Sprint("maxHolders=", maxHolders, " maxLen=", maxLen)
+	}, want: map[int][]string{0: {"maxHolders=1 maxLen=1"}, 2: {"maxHolders=1 maxLen=1"}, 3: {"maxHolders=1 maxLen=1"}}})
 	ts = append(ts, test{name: "select-both-ready", body: func(obs *string) {
 		a, b := make(chan int, 1), make(chan int, 1)
 		a <- 1
